@@ -40,6 +40,39 @@ CHECKS = {
              "In the replay every evaluation runs in its own process and a different process then calls dds.load for every "
              "path the spec says is committed (kept now or earlier); the loaded value must equal the spec's served value.",
         design_ref="DESIGN.md 5 C04"),
+    "C09": dict(
+        engine="tlc-design+tlc-generate",
+        technique="TLA+ spec DdsEval: loads resolved against the evaluation's own producers then the committed paths, cone rule 6, "
+                  "static program-order well-formedness (READ_BEFORE_PRODUCE, MISSING_PATH); TLC-checked, generated histories "
+                  "(two roots: producer and reader pipelines) replayed on the real library",
+        text="TLC checks RetCorrect/Sound/NoRecompute/RejectClean on shapes that place a dds.load at the root's top level, in a "
+             "nested helper and inside a kept function, with data-function and keep-call producers that ran earlier in the same "
+             "evaluation, later in it (must be rejected), in an earlier evaluation or never (must be rejected). Every generated "
+             "history (edits of the producer's variables, reverts, restarts, producer and reader evaluated separately) is "
+             "replayed: loaded and reader values vs the reference, reader execution log, DDSException class for rejections with "
+             "nothing executed and nothing written.",
+        design_ref="DESIGN.md 5 C09, 4.1 rule 6"),
+    "C10": dict(
+        engine="tlc-design+tlc-generate",
+        technique="TLA+ spec DdsEval: SetFail/ClearFail actions, Enter raises and unwinds; action property FailClean checked by "
+                  "TLC; generated histories (every function as the failing one x exception class) replayed with exception "
+                  "identity, store operations and the following evaluations compared",
+        text="In the spec a failing body unwinds the whole evaluation: no path is committed and only nodes that had returned are "
+             "stored (FailClean, checked by TLC over every function of every shape as the failing one). Replays check that the "
+             "exception caught at the call site is the very object raised, that store_blob was called exactly for the spec's "
+             "completed nodes (blobs are self-describing terms) and sync_paths never, that dds' evaluation context is cleared, "
+             "and that the following evaluations return the reference value and execute exactly what the spec predicts.",
+        design_ref="DESIGN.md 5 C10"),
+    "C15": dict(
+        engine="tlc-design+tlc-generate",
+        technique="TLA+ spec DdsEval: EvalBegin takes a stage prefix; action properties DryRun/DryRunPure checked by TLC; generated "
+                  "histories mixing restricted and full evaluations replayed; stage-list spellings and invalid lists probed",
+        text="TLC checks that an evaluation restricted to the first k stages never changes the path table (k<5) nor the store at "
+             "all (k<3) and that later full evaluations return the reference value. Replays compare execution log, store_blob / "
+             "sync_paths calls, returned value (None for dry runs) and the signatures of later full evaluations; every prefix "
+             "of the stage order is used, in lower/upper/mixed case and as enum members, and non-prefix lists must raise a DDS "
+             "error without running anything.",
+        design_ref="DESIGN.md 5 C15"),
     "C08": dict(
         engine="tlc-design+tlc-generate+tlc-trace",
         technique="TLA+ spec StoreModel (dictionary store with path identity = segment sequence) model-checked by TLC over its "
